@@ -309,7 +309,7 @@ class SecNode(object):
             res['payload'] = None
         return res
 
-    def external_aad(self, raw, sec_hdr, source, scope, addl_protected, target_num):
+    def external_aad(self, raw, sec_hdr, source, scope, addl_protected, target_num, sec_btsd=b''):
         ''' ``CoseSecOpCtx.get_external_aad()`` of the real code for an arbitrary scope / target / security
         block header on the decoded bundle ``raw`` (pure function; no crypto).
         :return: bytes, or 'exc:<Class>'. '''
@@ -317,7 +317,7 @@ class SecNode(object):
         from bp.encoding import Bundle, CanonicalBlock
         from bp.encoding.fields import EidField
         ctr = BundleContainer(Bundle(bytes(raw)))
-        sec = CanonicalBlock(type_code=sec_hdr[0], block_num=sec_hdr[1], block_flags=sec_hdr[2])
+        sec = CanonicalBlock(type_code=sec_hdr[0], block_num=sec_hdr[1], block_flags=sec_hdr[2], btsd=bytes(sec_btsd))
         try:
             ssrc_enc = cbor2.dumps(EidField('x').i2m(None, source))
             secop = self.mod.CoseSecOpCtx(ctr=ctr, sec_blk=sec, ssrc_enc=ssrc_enc, aad_scope=dict(scope),
@@ -687,9 +687,10 @@ def diff_covered(orig_raw, alt_raw, sec_type):
     ''' Classification of an alteration by the property text.
 
     :return: (cls, detail) with cls one of
-       'must_fail'  covered content (or the MAC/signature) of some operation differs, an operation vanished
-                    or appeared while a security block of the type is still present, or the security block no
-                    longer decodes while still present;
+       'must_fail'  covered content (or the MAC/signature) of some operation differs, or an operation
+                    appeared / vanished (other than by cutting the target list short);
+       'asb_malformed' a block of the type is present but its BTSD is not a well-formed RFC 9172 Abstract Security
+                    Block any more (a lenient decoder may still read it; property C12 says it must not be delivered);
        'must_pass'  every operation has identical covered content, tag and key information;
        'either'     covered content and tags identical, key information differs (key resolution decides);
        'no_secblk'  no block of type ``sec_type`` is present any more;
@@ -709,7 +710,7 @@ def diff_covered(orig_raw, alt_raw, sec_type):
         return ('no_secblk', '')
     (va, why) = covered_view(alt_raw, sec_type)
     if va is None:
-        return ('must_fail', 'security block undecodable: ' + str(why))
+        return ('asb_malformed', 'security block undecodable: ' + str(why))
     if set(va.keys()) < set(vo.keys()):
         same = all(_hashable([vo[key].get(name) for name in COVERED_KEYS]) == _hashable([va[key].get(name) for name in COVERED_KEYS])
                    for key in va.keys())
